@@ -33,7 +33,10 @@ BUILTINS = {
 
 LIST_MUTATORS = {"append", "extend", "insert"}
 STATEFUL_METHODS = {"read", "readline", "readinto", "tell", "pop", "popitem", "recv", "__next__"}
-STATEFUL_FUNCS = {"time.time", "time.perf_counter", "builtins.next", "builtins.id", "builtins.input"}
+STATEFUL_FUNCS = {"time.time", "time.perf_counter", "builtins.next", "builtins.id", "builtins.input",
+                  # array constructors: two calls with equal arguments are two different buffers
+                  "numpy.zeros", "numpy.ones", "numpy.empty", "numpy.full", "numpy.zeros_like", "numpy.ones_like",
+                  "numpy.empty_like", "numpy.full_like"}
 
 
 class Event:
@@ -230,8 +233,9 @@ class Interp:
         return t
 
     # ------------------------------------------------------------- running
-    def run(self, fi, args=None, self_term=None, kwargs=None):
-        """Analyse `fi` as a root: parameters are symbolic unless given in args."""
+    def run(self, fi, args=None, self_term=None, kwargs=None, fields=None):
+        """Analyse `fi` as a root: parameters are symbolic unless given in args.
+        `fields` pre-binds attributes of self: {attr: term}."""
         cls = fi.cls
         self.root_fi = fi
         fr = Frame(fi, fi.module, cls, None, None, (), 0)
@@ -257,8 +261,26 @@ class Interp:
             fr.env[a.kwarg.arg] = args.get(a.kwarg.arg, tm.param("**" + a.kwarg.arg))
         for k in a.kwonlyargs:
             fr.env[k.arg] = args.get(k.arg, tm.param(k.arg))
+        if fields and fr.self_term is not None:
+            for k, v in fields.items():
+                fr.env[("f", fr.self_term, k)] = v
         self.exec_block(fr, fi.node.body)
         return fr
+
+    def fields_of(self, fr, obj=None):
+        """{attr: term} bound on obj (default: the frame's self) at the end of a run."""
+        obj = obj if obj is not None else fr.self_term
+        return {k[2]: v for k, v in fr.env.items() if isinstance(k, tuple) and k[0] == "f" and k[1] == obj}
+
+    def call_closure(self, fr, clo_term, args):
+        """Run a closure value (e.g. the _fill function returned by fill_func) with symbolic arguments."""
+        out = []
+        for a in tm.alts(clo_term):
+            if a.op == "closure":
+                clo = self.closures[a.args[0]]
+                self.emit(fr, "call", clo.node, f=a, args=tuple(args), kwargs=(), recv=None, name=clo.fi.fq, method=None, resolved=[clo.fi], via="closure", result=None)
+                out.append(self.inline(fr, clo.fi, list(args), {}, clo.node, None, clo))
+        return out
 
     def result_of(self, fr):
         if fr.fi.is_generator:
@@ -376,11 +398,13 @@ class Interp:
         return False
 
     def st_Break(self, fr, s):
+        self.emit(fr, "break", s)
         if fr.break_envs:
             fr.break_envs[-1].append(dict(fr.env))
         return False
 
     def st_Continue(self, fr, s):
+        self.emit(fr, "continue", s)
         if fr.cont_envs:
             fr.cont_envs[-1].append(dict(fr.env))
         return False
